@@ -262,10 +262,35 @@ def execute(case):
 
 
 def shards(tier):
-    return [{"kind": "hist", "i": i} for i in range(16)]
+    return [{"kind": "hist", "i": i} for i in range(16)] + [{"kind": "relay_rollback"}]
+
+
+STORE_SIGS = ("store-holds-blocks-the-node-dropped", "accepted-block-not-in-store", "rejected-block-in-store")
+
+
+def run_relay_rollback(tier, seed, only=None):
+    """The store as the running node fills it: a batch of answers is buffered, a relayed block is refused (chain state rolls back,
+    the buffered answers are dropped with it), a valid block follows and is flushed, the node restarts.  The store must then hold
+    what the node held -- nothing written after the refusal that the node had dropped, and the valid block.  The scenario is the
+    relay check's (vf/props/c09.py run_bulk_boundary); only its statements about the STORE are this property's."""
+    from vf.props import c09
+    res = Result()
+    inner = c09.run_bulk_boundary(Result(), tier, seed, only=only)
+    res.evaluations = inner.evaluations
+    res.errors.extend(inner.errors)
+    for d in inner.digests:
+        res.nontrivial("relay_rollback:" + str(d))
+    for f in inner.failures:
+        if f["sig"] in STORE_SIGS:
+            res.fail(f["kind"], f["sig"], f["msg"], {"relay_rollback": f["case"]["bulk_boundary"]})
+    return res
 
 
 def run(shard, tier, seed):
+    if shard["kind"] == "relay_rollback":
+        res = run_relay_rollback(tier, seed)
+        res.count("relay_rollback_scenarios", len(res.digests))
+        return res
     res = Result()
     n = 14 if tier == "quick" else 350
     found = {}
@@ -330,4 +355,6 @@ def run(shard, tier, seed):
 
 
 def replay(case):
+    if "relay_rollback" in case:
+        return run_relay_rollback("quick", 1, only=case["relay_rollback"]).failures
     return execute(case)[0]
